@@ -327,11 +327,42 @@ fn key_set(items: &[u8]) -> String {
     format!("{:?}", s)
 }
 
-fn rec(o: &mut dyn Write, cat: &str, key: String, variant: usize, stream: String) {
-    emit(o, json!({"rec": "identity", "cat": cat, "key": key, "variant": variant, "stream": stream}));
+/// the concrete values of one category; on flush every value is compared (==) with every value of the category, in both
+/// orders, and the record carries the keys of the values it compared equal to (the judge decides)
+struct Cat<T> {
+    cat: &'static str,
+    vals: Vec<(String, usize, T)>,
+}
+impl<T: std::hash::Hash + PartialEq> Cat<T> {
+    fn new(cat: &'static str) -> Self {
+        Cat { cat, vals: vec![] }
+    }
+    fn add(&mut self, key: String, variant: usize, v: T) {
+        self.vals.push((key, variant, v));
+    }
+    fn flush(self, o: &mut dyn Write) {
+        for (key, variant, v) in &self.vals {
+            let mut eq_keys: Vec<&String> = self.vals.iter().filter(|(_, _, w)| v == w).map(|(k, _, _)| k).collect();
+            eq_keys.sort();
+            eq_keys.dedup();
+            emit(o, json!({"rec": "identity", "cat": self.cat, "key": key, "variant": variant, "stream": stream_of(v), "eq_keys": eq_keys}));
+        }
+    }
 }
 
 pub fn identity(o: &mut dyn Write) {
+    let mut c_map_to_sets = Cat::new("map_to_sets");
+    let mut c_net_dup = Cat::new("net_dup");
+    let mut c_net_nondup = Cat::new("net_nondup");
+    let mut c_net_ordered = Cat::new("net_ordered");
+    let mut c_pair_of_clocks = Cat::new("pair_of_clocks");
+    let mut c_pair_of_maps = Cat::new("pair_of_maps");
+    let mut c_pair_of_sets = Cat::new("pair_of_sets");
+    let mut c_set_of_sets = Cat::new("set_of_sets");
+    let mut c_sets_as_map_keys = Cat::new("sets_as_map_keys");
+    let mut c_vec_of_clocks = Cat::new("vec_of_clocks");
+    let mut c_vec_of_sets = Cat::new("vec_of_sets");
+    let mut c_vec_of_timers = Cat::new("vec_of_timers");
     let atoms = [1u8, 2, 3];
     let subs = subsets(&atoms);
     // 1. two adjacent sets in a tuple
@@ -339,7 +370,7 @@ pub fn identity(o: &mut dyn Write) {
         for b in &subs {
             let (va, vb) = (set_variants(a), set_variants(b));
             for k in 0..va.len() {
-                rec(o, "pair_of_sets", format!("{}|{}", key_set(a), key_set(b)), k, stream_of(&(va[k].clone(), vb[(k + 1) % vb.len()].clone())));
+                c_pair_of_sets.add(format!("{}|{}", key_set(a), key_set(b)), k, (va[k].clone(), vb[(k + 1) % vb.len()].clone()));
             }
         }
     }
@@ -363,7 +394,7 @@ pub fn identity(o: &mut dyn Write) {
         let key = v.iter().map(|s| key_set(s)).collect::<Vec<_>>().join("|");
         for k in 0..3 {
             let conc: Vec<HashableHashSet<u8>> = v.iter().map(|s| set_variants(s)[k].clone()).collect();
-            rec(o, "vec_of_sets", key.clone(), k, stream_of(&conc));
+            c_vec_of_sets.add(key.clone(), k, conc);
         }
         let timers: Vec<stateright::actor::Timers<u8>> = v
             .iter()
@@ -375,7 +406,7 @@ pub fn identity(o: &mut dyn Write) {
                 t
             })
             .collect();
-        rec(o, "vec_of_timers", key.clone(), 0, stream_of(&timers));
+        c_vec_of_timers.add(key.clone(), 0, timers);
         let timers2: Vec<stateright::actor::Timers<u8>> = v
             .iter()
             .map(|s| {
@@ -388,7 +419,7 @@ pub fn identity(o: &mut dyn Write) {
                 t
             })
             .collect();
-        rec(o, "vec_of_timers", key, 1, stream_of(&timers2));
+        c_vec_of_timers.add(key, 1, timers2);
     }
     // 3. maps, adjacent maps
     let keys = [1u8, 2];
@@ -421,7 +452,7 @@ pub fn identity(o: &mut dyn Write) {
     for a in &maps {
         for b in &maps {
             for k in 0..2 {
-                rec(o, "pair_of_maps", format!("{:?}|{:?}", a, b), k, stream_of(&(mk_map(a, k), mk_map(b, 1 - k))));
+                c_pair_of_maps.add(format!("{:?}|{:?}", a, b), k, (mk_map(a, k), mk_map(b, 1 - k)));
             }
         }
     }
@@ -438,19 +469,19 @@ pub fn identity(o: &mut dyn Write) {
             for s in order {
                 outer.insert(set_variants(s)[k].clone());
             }
-            rec(o, "set_of_sets", key.clone(), k, stream_of(&outer));
+            c_set_of_sets.add(key.clone(), k, outer);
             // the same sets as values of a map (key = index in `inner`)
             let mut mp: HashableHashMap<u8, HashableHashSet<u8>> = HashableHashMap::new();
             for s in &chosen {
                 let idx = inner.iter().position(|x| x == s).unwrap() as u8;
                 mp.insert(idx, set_variants(s)[k].clone());
             }
-            rec(o, "map_to_sets", key.clone(), k, stream_of(&mp));
+            c_map_to_sets.add(key.clone(), k, mp);
             let mut mk: HashableHashMap<HashableHashSet<u8>, u8> = HashableHashMap::new();
             for s in &chosen {
                 mk.insert(set_variants(s)[(k + 1) % 3].clone(), 9);
             }
-            rec(o, "sets_as_map_keys", key.clone(), k, stream_of(&mk));
+            c_sets_as_map_keys.add(key.clone(), k, mk);
         }
     }
     // 5. adjacent vector clocks (trailing zeros are insignificant)
@@ -465,11 +496,11 @@ pub fn identity(o: &mut dyn Write) {
     for a in &clocks {
         for b in &clocks {
             let key = format!("{}|{}", canon(a), canon(b));
-            rec(o, "pair_of_clocks", key.clone(), 0, stream_of(&(VectorClock::from(a.clone()), VectorClock::from(b.clone()))));
+            c_pair_of_clocks.add(key.clone(), 0, (VectorClock::from(a.clone()), VectorClock::from(b.clone())));
             let mut a2 = a.clone();
             a2.push(0);
-            rec(o, "pair_of_clocks", key.clone(), 1, stream_of(&(VectorClock::from(a2), VectorClock::from(b.clone()))));
-            rec(o, "vec_of_clocks", key, 0, stream_of(&vec![VectorClock::from(a.clone()), VectorClock::from(b.clone())]));
+            c_pair_of_clocks.add(key.clone(), 1, (VectorClock::from(a2), VectorClock::from(b.clone())));
+            c_vec_of_clocks.add(key, 0, vec![VectorClock::from(a.clone()), VectorClock::from(b.clone())]);
         }
     }
     // 6. networks: same contents built in different send orders; last_msg and counts are part of the identity
@@ -483,15 +514,15 @@ pub fn identity(o: &mut dyn Write) {
         let key = format!("{:?}", chosen);
         for k in 0..2 {
             let order: Vec<Envelope<u8>> = if k == 1 { chosen.iter().rev().cloned().collect() } else { chosen.clone() };
-            rec(o, "net_dup", format!("{}/none", key), k, stream_of(&Network::new_unordered_duplicating(order.clone())));
+            c_net_dup.add(format!("{}/none", key), k, Network::new_unordered_duplicating(order.clone()));
             for l in &envs[..2] {
-                rec(o, "net_dup", format!("{}/{:?}", key, l), k, stream_of(&Network::new_unordered_duplicating_with_last_msg(order.clone(), Some(*l))));
+                c_net_dup.add(format!("{}/{:?}", key, l), k, Network::new_unordered_duplicating_with_last_msg(order.clone(), Some(*l)));
             }
-            rec(o, "net_nondup", key.clone(), k, stream_of(&Network::new_unordered_nonduplicating(order.clone())));
+            c_net_nondup.add(key.clone(), k, Network::new_unordered_nonduplicating(order.clone()));
             let mut twice = order.clone();
             if let Some(e) = chosen.first() {
                 twice.push(*e);
-                rec(o, "net_nondup", format!("{}+{:?}", key, e), k, stream_of(&Network::new_unordered_nonduplicating(twice)));
+                c_net_nondup.add(format!("{}+{:?}", key, e), k, Network::new_unordered_nonduplicating(twice));
             }
         }
         // ordered: per-flow order matters, interleaving of different flows does not
@@ -504,10 +535,22 @@ pub fn identity(o: &mut dyn Write) {
             }
             format!("{:?}|{:?}", f01, f10)
         };
-        rec(o, "net_ordered", flows_key.clone(), 0, stream_of(&Network::new_ordered(o1.clone())));
+        c_net_ordered.add(flows_key.clone(), 0, Network::new_ordered(o1.clone()));
         // move the 1->0 message to the front: same flows
         let mut o2: Vec<Envelope<u8>> = o1.iter().filter(|e| usize::from(e.src) == 1).cloned().collect();
         o2.extend(o1.iter().filter(|e| usize::from(e.src) == 0).cloned());
-        rec(o, "net_ordered", flows_key, 1, stream_of(&Network::new_ordered(o2)));
+        c_net_ordered.add(flows_key, 1, Network::new_ordered(o2));
     }
+    c_map_to_sets.flush(o);
+    c_net_dup.flush(o);
+    c_net_nondup.flush(o);
+    c_net_ordered.flush(o);
+    c_pair_of_clocks.flush(o);
+    c_pair_of_maps.flush(o);
+    c_pair_of_sets.flush(o);
+    c_set_of_sets.flush(o);
+    c_sets_as_map_keys.flush(o);
+    c_vec_of_clocks.flush(o);
+    c_vec_of_sets.flush(o);
+    c_vec_of_timers.flush(o);
 }
